@@ -12,6 +12,7 @@ import (
 
 	"github.com/buzzfeed/sso/verifharness/cb"
 	"github.com/buzzfeed/sso/verifharness/ps"
+	"github.com/buzzfeed/sso/verifharness/sf"
 )
 
 func main() {
@@ -32,6 +33,7 @@ func main() {
 	base := fs.Int("base", 0, "first case number (replay)")
 	only := fs.Int("only", -1, "run only this history / behaviour (replay)")
 	noshuffle := fs.Bool("noshuffle", false, "keep input order")
+	target := fs.String("target", "", "driver-specific target (replay)")
 	fs.Parse(os.Args[2:])
 	_ = n
 	_ = steps
@@ -45,6 +47,8 @@ func main() {
 		sum, err = ps.RunHistories(*out, *seed, *n, *steps, *workers, *only)
 	case "cb-replay":
 		sum, err = cb.RunReplay(*in, *out, *seed, *sample, *workers, *only)
+	case "sf-replay":
+		sum, err = sf.RunReplay(*in, *out, *seed, *sample, *reps, *workers, *only, *target)
 	default:
 		err = fmt.Errorf("unknown driver %q", drv)
 	}
